@@ -680,7 +680,7 @@ func checkCallerSliceUntouchedOn(p *core.Program, r *core.Report, c *wlCtor) {
 	name := core.FuncName(fn)
 	// R10.1
 	bad := 0
-	for _, ef := range eff.Summary[fn] {
+	for _, ef := range eff.Writes(fn) {
 		bad++
 		r.Fail("R10.1", name, ef.What+" -> "+ef.Root.String(), p.InstrPos(ef.Instr), "the constructor modifies memory it does not own (the caller's slice)")
 	}
